@@ -251,6 +251,24 @@ def run(ctx):
                 ctx.fail("carbon-label-wrong", rxn, {"is_carbon_balanced": icb, "carbons": [cr, cp]})
         except Exception as e:
             ctx.count("C", "is_carbon_balanced_raised")
+    # the object-level API the pipeline uses (one checker object per pass, its own count cache), for several atom types one after the
+    # other in this process: a label must be the label of the element it was asked for, whatever was counted before
+    sub = [r for r in rx if r.count(">>") == 1 and all(Chem.MolFromSmiles(c) is not None for side in r.split(">>") for c in side.split("."))][:40 if ctx.quick() else 400]
+    sub += ["CCCCO>>CCCC=O.O", "O=C=O>>OC(=O)c1ccccc1", "CC(=O)O.CC(=O)O>>CC(=O)OC(C)=O.O", "CN.CN>>CNC.N"]
+    for at in ("O", "C", "N", "C", "Cl", "C"):
+        num = Chem.GetPeriodicTable().GetAtomicNumber(at)
+        try:
+            res = CheckCarbonBalance([{"reactions": r} for r in sub], rsmi_col="reactions", atom_type=at, n_jobs=1).check_carbon_balance()
+        except Exception as e:
+            ctx.mismatch("check_carbon_balance raised", at, str(e)[:200], None)
+            continue
+        for r, o in zip(sub, res):
+            ctx.evaluations += 1
+            cnt = [sum(1 for c in side.split(".") for a in Chem.MolFromSmiles(c).GetAtoms() if a.GetAtomicNum() == num) for side in r.split(">>")]
+            spec = "balanced" if cnt[0] == cnt[1] else "products" if cnt[0] > cnt[1] else "reactants"
+            if o.get("carbon_balance_check") != spec:
+                ctx.fail("carbon-label-wrong", r, {"label": o.get("carbon_balance_check"), "atom_type": at, "counts": cnt, "api": "CheckCarbonBalance(...).check_carbon_balance(), atom types O,C,N,C,Cl,C in one process"})
+        ctx.count("C", "object_api_passes")
     ctx.streams.setdefault("C", {})["label_histogram"] = dict(lh)
     ctx.sample({"stream": "C", "reaction": rx[0]})
 
